@@ -38,9 +38,9 @@ inductive TMapper where
   | lower
   /-- a flat `{field: key}` dict of strings -/
   | rename (d : List (String × String))
-  /-- anything `_is_mapper_simple` refuses: a list of mappers, a `"x._mapper"` key, a
-      FunctionCall / DoNotSerialize / Constant value -/
-  | complex
+  /-- anything `_is_mapper_simple` refuses: a list of mappers (`list = true`), a `"x._mapper"`
+      key, a FunctionCall / DoNotSerialize / Constant value -/
+  | complex (list : Bool := false)
 deriving Repr, Inhabited
 
 abbrev MapEnv := String → TMapper
@@ -48,7 +48,12 @@ abbrev MapEnv := String → TMapper
 def noMappers : MapEnv := fun _ => .none
 
 def TMapper.isComplex : TMapper → Bool
-  | .complex => true
+  | .complex _ => true
+  | _ => false
+
+/-- `get_flat_resolved_mapper` calls `mapper.get`: a list of mappers has no `get` -/
+def TMapper.isList : TMapper → Bool
+  | .complex l => l
   | _ => false
 
 def TMapper.isNone : TMapper → Bool
@@ -257,7 +262,9 @@ def tInst (m : TMapper) (cname : String) (crash : Bool) (names : List String) (v
   | .dict kvs => (match kwOfDict kvs with
     | none => .error (.other "outside-model:non-str-key")
     | some doc =>
-      if crash then .error (.other "AttributeError")
+      -- (reachable only for a class the classifier never looked at: behind an Optional)
+      if m.isList then .error (.other "AttributeError")
+      else if crash then .error (.other "AttributeError")
       else bindE (k (remapDoc m names doc)) fun attrs => .ok (.inst cname attrs))
   | _ => .error (.other "outside-model:non-dict")
 
